@@ -25,12 +25,15 @@ struct Case
     int dst;     // 0 in place (dst == src), 1 other buffer, 2 NULL destination
     unsigned nthreads;
     int pre;     // call made on the same object BEFORE the measured one (non-initial object state): 0 none, 1/2 extendPol with another N, 3 NTT of the full domain
+    int team0;   // OpenMP default team size in force when the case starts (0: the process default)
+    int plant;   // 0: impulse basis + dense input; 1/2: boundary values planted at a stage of the pipeline (see run_case_planted)
 };
 static std::string casestr(const Case &c)
 {
     return fmt("mode=%s D=%llu n=%llu next=%llu ncols=%llu nphase=%s nblock=%s buf=%d dst=%d nthreads=%u pre=%d", mname[c.mode], (unsigned long long)c.D, (unsigned long long)c.n,
-               (unsigned long long)c.next, (unsigned long long)c.ncols, hex(c.nphase).c_str(), hex(c.nblock).c_str(), c.buf, c.dst, c.nthreads, c.pre);
+               (unsigned long long)c.next, (unsigned long long)c.ncols, hex(c.nphase).c_str(), hex(c.nblock).c_str(), c.buf, c.dst, c.nthreads, c.pre) + (c.team0 ? fmt(" team0=%d", c.team0) : std::string()) + (c.plant ? fmt(" plant=%d", c.plant) : std::string());
 }
+static int g_team0; // OpenMP default team size at start-up: restored before every case, so that a case never depends on the cases the same worker ran before
 static unsigned lg(u64 x) { return nttor::lg(x); }
 static std::vector<u64> kernel(const Case &c) { return nttor::kernel(c.mode, c.n, c.next); }
 
@@ -135,8 +138,84 @@ static void run_case_big(const Case &c)
     }
 }
 
+// ---- boundary values planted at a stage of the pipeline.  The transforms are value-oblivious, so any shortcut keyed on the
+// VALUES of a row (a "row is zero" test, a carry that only some words produce) must be exercised with the boundary words in the
+// place where the code looks at them, which need not be the caller's input.  For every row i and every ordered pair (x, y) of
+// the boundary set B, the stage vector S is generic except S[i][0] = x, S[i][1] = y and S[i][c>=2] = 0, and the call's input is
+// the oracle pre-image of S:
+//   plant=1  S is the input itself
+//   plant=2  NTT: S is the OUTPUT (input = inverse DFT of S); INTT: S is the output (input = DFT of S);
+//            extendPol: S is the coefficient vector after the coset scaling, S[i] = f_i 7^i (input = DFT of f)
+// The whole output is compared with the closed-form kernel applied to that input.
+static void run_case_planted(const Case &c)
+{
+    const u64 n = c.n, ncols = c.ncols, nout = (c.mode == M_EXT) ? c.next : n;
+    const std::string prop = propof[c.mode];
+    static const u64 B[] = {0, 1, 2, 0xFFFFFFFFULL, 0x100000000ULL, 0x100000001ULL, 0x7FFFFFFFFFFFFFFFULL, 0x8000000000000000ULL, 0x8000000000000001ULL,
+                            (GP - 1) / 2, (GP + 1) / 2, GP - 0x100000000ULL, GP - 2, GP - 1};
+    const int NB = sizeof B / sizeof B[0];
+    std::vector<u64> K = kernel(c), Kf = nttor::kernel(M_NTT, n, 0), Ki = nttor::kernel(M_INTT, n, 0);
+    NTT_Goldilocks ntt(c.D, c.nthreads);
+    size_t nsrc = n * ncols, ndst = nout * ncols;
+    GuardArena<E> src(nsrc, true), dst(ndst, true), buf(ndst, true);
+    std::vector<u64> S(nsrc), in(nsrc), f(nsrc);
+    long long calls = 0;
+    for (u64 i = 0; i < n; i++)
+        for (int xi = 0; xi < NB; xi++)
+            for (int yi = 0; yi < NB; yi++)
+            {
+                for (u64 j = 0; j < n; j++) for (u64 cc = 0; cc < ncols; cc++) S[j * ncols + cc] = ((j * 7 + cc * 13 + 1) * 0x9E3779B97F4A7C15ULL) % GP;
+                for (u64 cc = 0; cc < ncols; cc++) S[i * ncols + cc] = cc == 0 ? B[xi] : cc == 1 ? B[yi] : 0;
+                if (c.plant == 1) in = S;
+                else
+                {
+                    const std::vector<u64> *T = &Kf; // pre-image by the forward DFT ...
+                    f = S;
+                    if (c.mode == M_NTT) T = &Ki;    // ... or by the inverse DFT
+                    if (c.mode == M_EXT)
+                    {
+                        u64 s7 = F.inv(7), q = 1;
+                        for (u64 j = 0; j < n; j++) { for (u64 cc = 0; cc < ncols; cc++) f[j * ncols + cc] = F.mul(S[j * ncols + cc] % GP, q); q = F.mul(q, s7); }
+                    }
+                    for (u64 k = 0; k < n; k++) for (u64 cc = 0; cc < ncols; cc++)
+                    {
+                        u64 a = 0;
+                        for (u64 j = 0; j < n; j++) a = F.add(a, F.mul(f[j * ncols + cc] % GP, (*T)[j * n + k]));
+                        in[k * ncols + cc] = a;
+                    }
+                }
+                for (size_t t = 0; t < nsrc; t++) src.p[t].fe = in[t];
+                for (size_t t = 0; t < ndst; t++) dst.p[t].fe = 0x5E5E5E5E5E5E5E5EULL;
+                E *b = c.buf ? buf.p : nullptr;
+                if (c.mode == M_NTT) ntt.NTT(dst.p, src.p, n, ncols, b, c.nphase, c.nblock);
+                else if (c.mode == M_INTT) ntt.INTT(dst.p, src.p, n, ncols, b, c.nphase, c.nblock);
+                else ntt.extendPol(dst.p, src.p, nout, n, ncols, b, c.nphase, c.nblock);
+                calls++;
+                for (u64 k = 0; k < nout; k++)
+                    for (u64 cc = 0; cc < ncols; cc++)
+                    {
+                        u64 ex = 0;
+                        for (u64 j = 0; j < n; j++) ex = F.add(ex, F.mul(in[j * ncols + cc] % GP, K[j * nout + k]));
+                        u64 g = dst.p[k * ncols + cc].fe;
+                        if (g % GP != ex)
+                        {
+                            rep().stat("transitions", calls);
+                            rep().stat("evaluations", calls);
+                            rep().viol(prop + ".wrong." + mname[c.mode] + ".planted." + fail_class(c), casestr(c),
+                                       fmt("stage row %llu = (%s, %s, 0...): out[%llu][%llu] = %s expected %s", (unsigned long long)i, hex(B[xi]).c_str(), hex(B[yi]).c_str(), (unsigned long long)k, (unsigned long long)cc, hex(g).c_str(), hex(ex).c_str()));
+                            return;
+                        }
+                    }
+            }
+    rep().stat("transitions", calls);
+    rep().stat("evaluations", calls);
+    rep().stat("planted_stage_calls", calls);
+}
+
 static void run_case(const Case &c)
 {
+    omp_set_num_threads(c.team0 ? c.team0 : g_team0);
+    if (c.plant) { run_case_planted(c); return; }
     if (c.n > 1024 || c.next > 1024) { run_case_big(c); return; }
     const u64 n = c.n, ncols = c.ncols;
     const u64 nout = (c.mode == M_EXT) ? c.next : n;
@@ -235,7 +314,7 @@ static bool parse(const std::string &s, Case &c)
     for (int i = 0; i < NMODE; i++) if (mo == mname[i]) c.mode = i;
     if (c.mode < 0) return false;
     c.D = cu(m, "D"); c.n = cu(m, "n"); c.next = cu(m, "next"); c.ncols = cu(m, "ncols");
-    c.nphase = cu(m, "nphase"); c.nblock = cu(m, "nblock"); c.buf = (int)cu(m, "buf"); c.dst = (int)cu(m, "dst"); c.nthreads = (unsigned)cu(m, "nthreads"); c.pre = (int)cu(m, "pre");
+    c.nphase = cu(m, "nphase"); c.nblock = cu(m, "nblock"); c.buf = (int)cu(m, "buf"); c.dst = (int)cu(m, "dst"); c.nthreads = (unsigned)cu(m, "nthreads"); c.pre = (int)cu(m, "pre"); c.plant = (int)cu(m, "plant", 0); c.team0 = (int)cu(m, "team0", 0);
     return true;
 }
 static void report_crash(const Case &c, const ChildResult &r)
@@ -260,6 +339,7 @@ static void report_crash(const Case &c, const ChildResult &r)
 int main(int argc, char **argv)
 {
     Args args = parse_args(argc, argv);
+    g_team0 = omp_get_max_threads();
     if (!args.one.empty())
     {
         Case c;
@@ -457,9 +537,38 @@ int main(int argc, char **argv)
                 std::string k = casestr(d);
                 if (seen.insert(k).second) extra.push_back(d);
             }
+            // the default team size of the environment is not the library's to assume: the same call under other defaults
+            for (int t0 : {3, 7})
+            {
+                Case d = c;
+                d.team0 = t0;
+                std::string k = casestr(d);
+                if (seen.insert(k).second) extra.push_back(d);
+            }
         }
         cases.insert(cases.end(), extra.begin(), extra.end());
         rep().stat("cases_from_non_initial_object_state", (long long)extra.size());
+    }
+    {
+        // boundary words planted at a pipeline stage (run_case_planted)
+        int mode = which == "C03" ? M_NTT : which == "C04" ? M_INTT : M_EXT;
+        long long added = 0;
+        if (!args.num("light", 0))
+        for (u64 n : {2ULL, 4ULL, 8ULL, 16ULL})
+            for (u64 e : {2ULL, 4ULL})
+                for (u64 ncols : {2ULL, 3ULL})
+                    for (u64 ph : {1ULL, 2ULL, 3ULL})
+                        for (u64 bl : {1ULL, 2ULL})
+                            for (int plant = 1; plant <= 2; plant++)
+                            {
+                                if (mode != M_EXT && e != 2) continue;
+                                if (!th && n == 16 && (ph != 3 || bl != 1)) continue;
+                                unsigned t = (ph == 3 && bl == 1) ? 3 : 1;
+                                Case c = {mode, mode == M_EXT ? n : n, n, mode == M_EXT ? n * e : 0, ncols, ph, bl, 0, 1, t, 0, 0, plant};
+                                cases.push_back(c);
+                                added++;
+                            }
+        rep().stat("cases_with_planted_stage_values", added);
     }
     if (args.seed) std::rotate(cases.begin(), cases.begin() + (args.seed % cases.size()), cases.end());
     isolated_for((long)cases.size(), args.jobs, 24, [&](long i) { run_case(cases[i]); }, [&](long i, const ChildResult &r) { report_crash(cases[i], r); }, 300);
